@@ -2,6 +2,7 @@ package server
 
 import (
 	"context"
+	"strings"
 
 	"go.lsp.dev/protocol"
 
@@ -43,11 +44,19 @@ func (s *Server) Rename(ctx context.Context, params *protocol.RenameParams) (*pr
 		return nil, nil
 	}
 
+	// a commodity that is not read back as itself without quotes ("EUR2", "my
+	// coin") is written in quotes, as the formatter writes it: "EUR10" renamed to
+	// EUR2 is "EUR2"10, not EUR210
+	newText := params.NewName
+	if target.context == DefContextCommodity && !strings.Contains(newText, "\"") && !parser.IsPlainCommodity(newText) {
+		newText = "\"" + newText + "\""
+	}
+
 	changes := make(map[protocol.DocumentURI][]protocol.TextEdit)
 	for _, loc := range locations {
 		changes[loc.URI] = append(changes[loc.URI], protocol.TextEdit{
 			Range:   loc.Range,
-			NewText: params.NewName,
+			NewText: newText,
 		})
 	}
 
